@@ -56,7 +56,7 @@ def run(ctx):
     cases = []
     n = 500 if quick else 8000
     for i in range(n):
-        fam = rng.choice(["int", "int", "dyadic", "generic"])
+        fam = rng.choice(["int", "int", "dyadic", "generic", "mixed", "mixed"])
         par = rng.randint(0, 1)
         depth = rng.choice([0, 1, 1, 2, 2, 3])
         bad = 0.0 if rng.random() < 0.93 else 0.5
